@@ -132,12 +132,11 @@ func VPH_treeInit() {
 	vp_Reach("end")
 }
 
-
 // VPH_wideTree (C04, C02): a single tree with W entries that all name the same
 // not-yet-known subdirectory (W around 2^8 and 2^16, where a narrow bookkeeping
 // counter would wrap), nested under a parent; the subdirectory arrives last.
 func VPH_wideTree() {
-	W := []int{255, 256, 257, 65535, 65536, 65537}[vp_Choice("width", vp_Param("widths"))]
+	W := []int{255, 256, 257, 65536, 65535, 65537}[vp_Choice("width", vp_Param("widths"))]
 	g := NewGraph(NameStyleNone)
 	blob := vpMkOID('b', 0)
 	g.RegisterBlob(blob, 5)
